@@ -81,6 +81,17 @@ func (x *World) position(q *ecs.Query) map[string]interface{} {
 		}
 	}
 	pos := map[string]interface{}{"e": ent(e), "comps": comps, "alt": alt, "vals": vals, "tgt": tgt, "rel": rel}
+	// Query.Relation for anything but the relation component of the current entity must be rejected
+	relBad := true
+	for _, n := range x.compNums {
+		c := x.comps[n]
+		if c == nil || n == rel {
+			continue
+		}
+		r := guard(func(r *result) { q.Relation(c.id) })
+		relBad = relBad && r.panicked
+	}
+	pos["relBadPanic"] = relBad
 	if x.posExtra != nil {
 		for k, v := range x.posExtra(q) {
 			pos[k] = v
@@ -114,6 +125,11 @@ func (x *World) panel(q *ecs.Query, walk []int) map[string]interface{} {
 	p["atLoPanic"] = lo.panicked
 	p["atHiPanic"] = hi.panicked
 	p["count2"] = q.Count()
+	// misuse that must be rejected without touching the query: non-positive step sizes
+	z := guard(func(r *result) { q.Step(0) })
+	n := guard(func(r *result) { q.Step(-3) })
+	p["stepNonPosPanic"] = z.panicked && n.panicked
+	p["count3"] = q.Count()
 	steps := []interface{}{}
 	open := true
 	walkErr := ""
